@@ -2,20 +2,19 @@ SPECIFICATION Spec
 CONSTANTS
   TreeSet <- Trees2
   OptSet <- OptsA
-  MaxBackups = 3
+  MaxBackups = 2
   MaxDeletes = 1
   MaxFaults = 0
-  AllowCrash = TRUE
-  AllowEmptyLeftover = TRUE
+  AllowCrash = FALSE
+  AllowEmptyLeftover = FALSE
   AllowTornRmdir = FALSE
   CombinerClearsQueueOnFailedFlush = TRUE
   Hash <- HashId
   ReaderReportsHunks = TRUE
   BkRechecksLock = TRUE
-  AllowConcurrent = FALSE
+  AllowConcurrent = TRUE
   GcStopsOnUnreadableHunk = TRUE
   GcBandsBeforeBlocks = TRUE
-  GcRefusesHeadlessNewest = TRUE
-INVARIANTS Inv_Format Inv_NoDangling Inv_SnapRestores Inv_RecordedBytes Inv_CompleteSuccess Inv_SkippedReported Inv_UnchangedStoresNothing Inv_GcExact
-PROPERTIES Prop_WriteOnce
+  GcRefusesHeadlessNewest = FALSE
+INVARIANTS Inv_QuiescentNoLoss Inv_RecordedBytes
 CHECK_DEADLOCK FALSE
